@@ -129,6 +129,10 @@ def base_specs(tier):
                     pm.append(("chunk", (0, N)))
                 for pk, win in pm:
                     yield dict(fam="xb", off=0, N=N, L=N, parent=pk, win=win, bounds=list(b), children=children, d2=False, arr=name, kinds=list(kinds))
+            # explicit bounds that CUT a member (the shape every relaxed query result has), on a whole chromosome with sequence
+            for b in ((lo + 1, hi), (lo, hi - 1), (lo + 1, hi - 1)):
+                if b[1] - b[0] >= 2:
+                    yield dict(fam="xb", off=0, N=N, L=N, parent="chrom", win=None, bounds=list(b), children=children, d2=False, arr=name, kinds=list(kinds), cut=True)
     # --- boundary worlds (parentless, sequence-less) --------------------------------------------------------------------
     for lvl in t["levels"]:
         B = 1 << lvl
@@ -334,12 +338,17 @@ def compare_sequences(r, got, members, rstate, gfn):
     oc = lib.outcome(lambda: str(r.get_reference_sequence()))
     if oc[0] != "ok" or oc[1] != want:
         probs.append(("collection-reference-sequence", {"got": _clip(oc[1]), "expected": _clip(want), "win": win, "shape": _shape(oc[1], want)}))
+    kept_parent = r.sequence is not None and held is not None and tuple(held) != tuple(win) and str(r.sequence) == gfn(held[0], held[1])
     for c in members:
         o = got.get(c["id"])
         if o is None:
             continue
         want = M.ref_seq(gfn, M.child_span(c), win)
         oc = lib.outcome(lambda: str(o.get_reference_sequence()))
+        if kept_parent and oc[0] == "ok" and oc[1] == M.ref_seq(gfn, M.child_span(c), held):
+            # nothing was subset and the result kept the source's (longer) sequence: a member that sticks out of the explicit
+            # bounds still reads the bases it read in the source ("the same sequence they had in the source")
+            want = oc[1]
         if want is None:
             if oc[0] == "ok" and oc[1] != "":
                 probs.append(("member-sequence", {"member": c["id"], "got": _clip(oc[1]), "expected": None}))
@@ -351,6 +360,8 @@ def compare_sequences(r, got, members, rstate, gfn):
         for g in c["gc"]:
             want = M.spliced(gfn, g, win)
             oc = lib.outcome(lambda: str(byid[g["id"]].get_spliced_sequence()))
+            if kept_parent and oc[0] == "ok" and oc[1] == M.spliced(gfn, g, held):
+                want = oc[1]
             if want == "":
                 if oc[0] == "ok" and oc[1] != "":
                     probs.append(("grandchild-sequence", {"gc": g["id"], "got": _clip(oc[1]), "expected": ""}))
@@ -839,6 +850,24 @@ def m_subset_end_clamp(d):
     return False
 
 
+def m_id_query_beyond_bounds(d):
+    """identifier / GUID query on a whole-chromosome collection WITH sequence whose explicit bounds are narrower than a
+    requested member: _subset_parent maps the member's end points through the collection's own location and raises"""
+    c = d["case"]
+    sp = c["spec"]
+    if not d["op"].startswith("query_by_") or d["op"] == "query_by_position" or c.get("path"):
+        return False
+    if not d["sig"].endswith("-raises-InvalidPositionException") or sp.get("parent") != "chrom" or not sp.get("bounds"):
+        return False
+    ex = d.get("expected")
+    if not isinstance(ex, dict) or not ex.get("members"):
+        return False
+    lo, hi = sp["bounds"]
+    spans = [M.child_span(ch) for ch in sp["children"] if ch["id"] in ex["members"]]
+    return any(s_ < lo or e_ > hi for s_, e_ in spans)
+
+
 MATCHERS = {
     "c09_variant_empty_isoform": m_variant_empty_isoform,
+    "c09_id_query_beyond_bounds": m_id_query_beyond_bounds,
 }
